@@ -474,8 +474,43 @@ def check_cascade_tables(ctx: Ctx) -> None:
     ctx.floor("6.6-cascade", 2)
 
 
+def check_sequential_stop(ctx: Ctx) -> None:
+    """6.7: a sequence of MDAs skips the remaining ones only when the residual of the one just run is below the tolerance
+    requested on the SEQUENCE (a coarse first MDA converged to its own tolerance is no reason to skip the fine one)."""
+    rel = "mda/sequential_mda.py"
+    f = ctx.index.method(rel, "MDASequential", "_execute")
+    con = cname(rel, "MDASequential", "_execute")
+    cfg = cfg_of(f)
+    loops = [s_ for s_ in stmts_of(f) if isinstance(s_, ast.For) and norm_stmt(s_.iter) == "self.mda_sequence"]
+    ctx.need(len(loops) == 1, "MDASequential._execute: loop over self.mda_sequence not found")
+    lv = dotted(loops[0].target)
+    exits = [s_ for s_ in ast.walk(loops[0]) if isinstance(s_, (ast.Break, ast.Return))]
+    for b in exits:
+        conds = [(cfg.ast[t].test, v) for t, v in branch_conditions(cfg, cfg.node_of(b)) if cfg.kind[t] == "test" and any(sub is cfg.ast[t] for sub in ast.walk(loops[0]))]
+        ok = len(conds) == 1
+        if ok:
+            test, v = conds[0]
+            alts = unfolded(f, test) or [test]
+            for a_ in alts:
+                cp = compare_parts(a_)
+                if not cp:
+                    ok = False
+                    continue
+                l_, op, r_ = cp
+                if not v:
+                    op = {ast.Lt: ast.GtE, ast.LtE: ast.Gt, ast.Gt: ast.LtE, ast.GtE: ast.Lt}.get(op, op)
+                if norm_stmt(r_) == f"{lv}.normed_residual":
+                    l_, r_, op = r_, l_, {ast.Lt: ast.Gt, ast.LtE: ast.GtE, ast.Gt: ast.Lt, ast.GtE: ast.LtE}.get(op, op)
+                ok = ok and norm_stmt(l_) == f"{lv}.normed_residual" and op in (ast.Lt, ast.LtE) and norm_stmt(r_) == "self.settings.tolerance"
+        ctx.ob("6.7-sequential-stop", con, ok, "the sequence may stop early only when `<mda>.normed_residual < self.settings.tolerance`, the tolerance of the sequence itself: compared with the sub-MDA's own (looser) tolerance, the following, finer MDA is skipped and the couplings returned are not converged to what was asked", node=b, stmt="early stop iff residual below the sequence's tolerance")
+    runs = [c for c in ast.walk(loops[0]) if isinstance(c, ast.Call) and last_attr(c) == "execute" and dotted(c.func.value) == lv]
+    ok = len(runs) == 1 and runs[0].args and norm_stmt(runs[0].args[0]) == "self.io.data" and all(cfg.reachable(cfg.node_of(runs[0]), cfg.node_of(b)) for b in exits)
+    ctx.ob("6.7-sequential-stop", con, bool(ok), "each MDA of the sequence runs on the data left by the previous one, and the early stop is tested after it ran", node=(runs or loops)[0], stmt="mda.execute(self.io.data) before the stop test")
+
+
 def run(ctx: Ctx) -> None:
     check_cascade_tables(ctx)
+    check_sequential_stop(ctx)
     check_scalings(ctx)
     check_loops(ctx)
     check_predicate(ctx)
